@@ -165,26 +165,35 @@ def regFields (reg1 : Registry → GoType → RegOut) : Registry → List (Field
 
 /-- `registerComposer(rt, nil)`; errors ("only structs can be recomposed") change nothing.
 `guard` is the repair: a composer found under the full name is only reused when it was made for
-this very type (struct literals all have the full name "/"). -/
-def registerT (guard : Bool) : Nat → Registry → GoType → RegOut
-  | 0, r, _ => ⟨r, none, false⟩
-  | f + 1, r, t =>
-    match derefT t with
-    | .struct name pkg fs =>
-      match (match r.find (fullName name pkg) with
-             | some c => if !guard || typeBeq c.rtype (.struct name pkg fs) then some c else none
-             | none => none) with
-      | some c => ⟨r, some c, false⟩                      -- already registered: no walk
-      | none =>
-        match indexType fuelI (.struct name pkg fs) with
-        | none => ⟨r, none, true⟩                         -- indexType panics before anything is entered
-        | some im =>
-          match regFields (registerT guard f)
+this very type (struct literals all have the full name "/"). `walk` registers the type of a field
+(the recursive call; `none`: out of fuel, the walk is skipped). -/
+def registerCore (guard : Bool) (walk : Option (Registry → GoType → RegOut)) (r : Registry) (t : GoType) : RegOut :=
+  match derefT t with
+  | .struct name pkg fs =>
+    match (match r.find (fullName name pkg) with
+           | some c => if !guard || typeBeq c.rtype (.struct name pkg fs) then some c else none
+           | none => none) with
+    | some c => ⟨r, some c, false⟩                        -- already registered: no walk
+    | none =>
+      match indexType fuelI (.struct name pkg fs) with
+      | none => ⟨r, none, true⟩                           -- indexType panics before anything is entered
+      | some im =>
+        match walk with
+        | none =>
+          ⟨(r.set name ⟨name, fullName name pkg, .struct name pkg fs, im⟩).set (fullName name pkg)
+              ⟨name, fullName name pkg, .struct name pkg fs, im⟩,
+            some ⟨name, fullName name pkg, .struct name pkg fs, im⟩, false⟩
+        | some w =>
+          match regFields w
               ((r.set name ⟨name, fullName name pkg, .struct name pkg fs, im⟩).set (fullName name pkg)
                 ⟨name, fullName name pkg, .struct name pkg fs, im⟩)
               fs.reverse with
           | (r', p) => ⟨r', some ⟨name, fullName name pkg, .struct name pkg fs, im⟩, p⟩
-    | _ => ⟨r, none, false⟩
+  | _ => ⟨r, none, false⟩
+
+def registerT (guard : Bool) : Nat → Registry → GoType → RegOut
+  | 0 => registerCore guard none
+  | f + 1 => registerCore guard (some (registerT guard f))
 
 /-! ## values -/
 
@@ -524,6 +533,50 @@ def recompG (cf : Nat → ComposerFor) (ck : Bytes) : Nat → Rec
   | f + 1 => recBody (cf f) ck (recompG cf ck f)
 
 def recompV (bareName : Bool) (ck : Bytes) : Nat → Rec := recompG (composerFor bareName) ck
+
+/-! ## predicates on types used by the theorems -/
+
+mutual
+  /-- `indexType` succeeds for every struct type inside `t` (no embedded pointer anywhere): no
+  registration ever panics -/
+  def goodT : GoType → Bool
+    | .slice e => goodT e
+    | .array _ e => goodT e
+    | .map e => goodT e
+    | .ptr e => goodT e
+    | .struct n p fs => (indexType fuelI (.struct n p fs)).isSome && goodFields fs
+    | _ => true
+  def goodFields : List (FieldHdr × GoType) → Bool
+    | [] => true
+    | (_, t) :: r => goodT t && goodFields r
+end
+
+mutual
+  /-- no `interface{}` slot inside `t`: `recompAny`, which resolves create-key NAMES found in the
+  data against whatever is registered, is never reached -/
+  def noIface : GoType → Bool
+    | .iface => false
+    | .slice e => noIface e
+    | .array _ e => noIface e
+    | .map e => noIface e
+    | .ptr e => noIface e
+    | .struct _ _ fs => noIfaceFields fs
+    | _ => true
+  def noIfaceFields : List (FieldHdr × GoType) → Bool
+    | [] => true
+    | (_, t) :: r => noIface t && noIfaceFields r
+end
+
+/-- the lookup a recomposer would do if it filed composers under the type itself -/
+def composerPure : ComposerFor := fun r name pkg fs =>
+  match indexType fuelI (.struct name pkg fs) with
+  | none => (none, r)
+  | some im => (some ⟨name, fullName name pkg, .struct name pkg fs, im⟩, r)
+
+/-- `Recompose` as it would be with an ideal registry: every struct type is decoded with ITS field
+index; no state -/
+def recomposePure (ck : Bytes) (t : GoType) (j : JV) : Slot :=
+  (recompG (fun _ => composerPure) ck 256 [] 1 j t none).slot
 
 /-- what the recomposer has seen -/
 inductive Event where
